@@ -35,8 +35,8 @@ ASSUMPTIONS = [
     "Python-level os.path.exists/islink/isfile/os.access never raise and are not faulted; subprocess-based helpers (pfiles, procfiles, swap -l, lsdev, entstat) are outside the model",
 ]
 MANIFEST = {
-    "level_text": "Machine-checked Lean 4 proofs over a model of the five non-Linux platform modules and the front end's platform-conditional post-processing: C20_error_contract (for every platform module, every errno in {ESRCH, ENOENT, EPERM, EACCES, EIO, EINVAL}, every winerror, every pid and pid state, the decorator built from the translator's except-clause table produces exactly the cell of the contract table), instantiated for every decorated method of the generated per-platform method lists (C20_error_contract_methods), C20_all_methods_wrapped (every undecorated method justified one by one, helpers only reachable from decorated methods), C20_inner_handlers_transcribed, C20_method_faults_within_spec (every native call of every method × error × pid state: outcome within the specification's allowed set, by decide over the generated traces; partial: two Windows call sites are known findings, counterexamples proved), C20_slot_maps_match_native, C20_slots_match, C20_ntuple_types, C20_win_pmem_layout (decide over generated tables), C20_api_names (documented ⊆ exposed per platform), C20_mac_padding, C20_broadcast (post-processing takes effect; counterexample for the pre-fix front end). Tie: translator (except clauses, decorators, slot maps, feeds, C comments, docs) + a differential run of the REAL platform modules and front end under platform emulation over a scripted native layer (full single-fault sweep).",
-    "level_note": "Trusted: Lean kernel + {propext, Classical.choice, Quot.sound}; the translator; the emulation layer (stub natives, scripted os); CPython's errno→exception map. Not executed: the native C layers of the other OSes. Partial: pid-state semantics is the module's own probe; two-fault sequences only in the thorough tier.",
+    "level_text": "Machine-checked Lean 4 proofs over a model of the five non-Linux platform modules and the front end's platform-conditional post-processing: C20_error_contract (for every platform module, every errno in {ESRCH, ENOENT, EPERM, EACCES, EIO, EINVAL}, every winerror, every pid and pid state, the decorator built from the translator's except-clause table produces exactly the cell of the contract table), instantiated for every decorated method of the generated per-platform method lists (C20_error_contract_methods), C20_all_methods_wrapped (every undecorated method justified one by one, helpers only reachable from decorated methods), C20_inner_handlers_transcribed, C20_method_faults_within_spec_partial (every native call of every method × error × pid state: outcome within the specification's allowed set, by decide over the generated traces; partial: two Windows call sites are known findings, counterexamples proved), C20_slot_maps_match_native, C20_slots_match, C20_ntuple_types, C20_win_pmem_layout (decide over generated tables), C20_api_names (documented ⊆ exposed per platform), C20_mac_padding, C20_broadcast_takes_effect (post-processing takes effect; counterexample for the pre-fix front end). Tie: translator (except clauses, decorators, slot maps, feeds, C comments, docs) + a differential run of the REAL platform modules and front end under platform emulation over a scripted native layer (full single-fault sweep).",
+    "level_note": "Trusted: Lean kernel + {propext, Classical.choice, Quot.sound}; the translator; the emulation layer (stub natives, scripted os); CPython's errno→exception map. Not executed: the native C layers of the other OSes. Partial: pid-state semantics is the module's own probe; single-fault sweep only (no two-fault sequences are generated).",
     "technique": "Lean 4 case analysis + decide over translator-generated tables; platform emulation with scripted native layer for the differential correspondence",
     "design_ref": "DESIGN.md §5 C20",
 }
